@@ -367,6 +367,9 @@ func errOrigin(t *Term) string {
 		}
 		return "call:" + n
 	}
+	if t.Op == "opaque" && strings.HasPrefix(t.Name, "iter") && len(t.Args) > 0 {
+		return errOrigin(t.Args[0]) // decoding / close error of a cursor: the store it was opened on
+	}
 	return "other:" + trunc(t.Key(), 60)
 }
 
